@@ -99,8 +99,8 @@ func (b *SignedContributionAndProof) ByteLength(spec *common.Spec) uint64 {
 	return codec.ContainerLength(spec.Wrap(&b.Message), &b.Signature)
 }
 
-func (a *SignedContributionAndProof) FixedLength(*common.Spec) uint64 {
-	return 0
+func (b *SignedContributionAndProof) FixedLength(spec *common.Spec) uint64 {
+	return codec.ContainerLength(spec.Wrap(&b.Message), &b.Signature)
 }
 
 func (b *SignedContributionAndProof) HashTreeRoot(spec *common.Spec, hFn tree.HashFn) common.Root {
